@@ -268,6 +268,8 @@ var c05Tokens = []string{
 	`"s"`, `'t'`, `"""m"""`, `"unterminated`, `"\q"`, "`raw",
 	"if", "elif", "else", "for", "in", "break", "continue", "true", "nil", "while", "return",
 	"(", ")", "[", "]", "{", "}", ",", ":", ";", "\n", ".", "=", "==", "+=", "+", "-", "*", "/", "%", "!", "!=", "<", "&&", "||", "|", "# c\n", "é", "\x80",
+	"\u2002", "\u00a0", "\u3000", "\u2028", "\u0085", // Unicode blanks (not blanks of this language)
+	"brea\u212a", "\u0130f", // letters whose lower case is ASCII: the token still spans its own bytes
 }
 
 func c05ValidPrograms() []string {
@@ -458,7 +460,7 @@ func init() {
 	run.Register(&run.Check{
 		ID:    "C05",
 		Level: "model_checking",
-		Rule: "(A) every byte string of length <=4 (thorough <=5) over a 36-byte alphabet (one byte per lexer branch, incl. CR and invalid UTF-8 bytes); (B) every sequence of <=3 (thorough <=4) tokens from a 56-token alphabet (every token kind and keyword, malformed numbers, unterminated strings, bad escapes); " +
+		Rule: "(A) every byte string of length <=4 (thorough <=5) over a 36-byte alphabet (one byte per lexer branch, incl. CR and invalid UTF-8 bytes); (B) every sequence of <=3 (thorough <=4) tokens from a 63-token alphabet (incl. Unicode blanks and letters that case-fold to ASCII) (every token kind and keyword, malformed numbers, unterminated strings, bad escapes); " +
 			"(C) 31 valid programs covering every production x every token position x {delete, duplicate, replace by each of the 56 tokens}, 1 deviation (thorough 2); (E) every string body of <=4 (thorough <=5) symbols over {a LF CR backslash \" ' ` é 0x80 n} between each of the 5 quote styles, as an assignment and as a call argument followed by another line; (D) nesting depth 10/100/10^4 (thorough 10^5) of every bracket, unary operator, call, index, attribute, block; " +
 			"oracle: ParsePipeline returns a tree xor a PlError naming the script with 0 <= offset <= len and consistent line/column, never (nil,nil), never a position-less error; a rejected text offered again under another script name gives the same diagnostic naming that script; the exported lexer's items tile the source (gaps only blanks)",
 		Assumptions: []string{"a worker that dies or stops making progress is reported with the index of the text it was parsing"},
